@@ -244,12 +244,41 @@ def arith (f : Float → Float → Float) (divZero : Bool) (r l : CV) : BinRes C
     | none => .err
     | some b => if divZero && b == 0.0 then .err else .push (mkNum (f a b))
 
-def cmp (num : Float → Float → Bool) (str : String → String → Bool) (rNumLStr rStrLNum : Bool) (r l : CV) : BinRes CV :=
-  if r.isNumT && l.isNumT then .push (.bool (num l.number r.number))
-  else if r.isStrT && l.isStrT then .push (.bool (str l.value r.value))
-  else if r.isNumT && l.isStrT then .push (.bool rNumLStr)
-  else if r.isStrT && l.isNumT then .push (.bool rStrLNum)
-  else .nopush
+def upperAscii (s : String) : String := String.ofList (s.toList.map Char.toUpper)
+
+def CV.isBoolT : CV → Bool
+  | .bool _ => true
+  | _ => false
+
+/-- calc.go `calcEqual` (after C08's fix "= and <> compare operands by type like Excel"): values of
+different types are never equal, numbers compare numerically, text without regard to case; other
+argument types keep comparing their string values -/
+def calcEqualC (r l : CV) : Bool :=
+  let scalar (v : CV) : Bool := v.isNumT || v.isStrT
+  if !(scalar r) || !(scalar l) then r.value == l.value
+  else if r.isStrT != l.isStrT then false
+  else if l.isStrT then lowerAscii l.value == lowerAscii r.value
+  else l.isBoolT == r.isBoolT && l.number == r.number
+
+/-- calc.go `calcCompare`: numbers < text < logical values; `none` = an operand is none of these -/
+def calcCompareC (l r : CV) : Option Int :=
+  let rank (v : CV) : Nat := if v.isBoolT then 3 else if v.isStrT then 2 else if v.isNumT then 1 else 0
+  let a := rank l
+  let b := rank r
+  if a == 0 || b == 0 then none
+  else if a != b then some (if a < b then -1 else 1)
+  else if a == 2 then
+    let x := upperAscii l.value
+    let y := upperAscii r.value
+    some (if x < y then -1 else if x == y then 0 else 1)
+  else if l.number < r.number then some (-1)
+  else if l.number > r.number then some 1
+  else some 0
+
+def cmp (p : Int → Bool) (r l : CV) : BinRes CV :=
+  match calcCompareC l r with
+  | some c => .push (.bool (p c))
+  | none => .nopush
 
 def binOp (op : String) (r l : CV) : BinRes CV :=
   let (r, l) := if op != "&" then (blank0 r, blank0 l) else (r, l)
@@ -259,12 +288,12 @@ def binOp (op : String) (r l : CV) : BinRes CV :=
   | "*" => arith (· * ·) false r l
   | "/" => arith (· / ·) true r l
   | "+" => arith (· + ·) false r l
-  | "=" => .push (.bool (r.value == l.value))
-  | "<>" => .push (.bool (r.value != l.value))
-  | "<" => cmp (· < ·) (· < ·) false true r l
-  | "<=" => cmp (· ≤ ·) (· ≤ ·) false true r l
-  | ">" => cmp (· > ·) (· > ·) true false r l
-  | ">=" => cmp (· ≥ ·) (· ≥ ·) true false r l
+  | "=" => .push (.bool (calcEqualC r l))
+  | "<>" => .push (.bool (!calcEqualC r l))
+  | "<" => cmp (· < 0) r l
+  | "<=" => cmp (· ≤ 0) r l
+  | ">" => cmp (· > 0) r l
+  | ">=" => cmp (· ≥ 0) r l
   | "&" => .push (.str (l.value ++ r.value))
   | _ => .nopush
 
